@@ -128,6 +128,7 @@ def run(prop, tier, *, mc_module, mc_cfg, driver, trace_module, trace_spec="TSpe
                 violations.append(dict(key=k, replay=rp, text="known finding, %d cases" % len(blocks[k])))
             else:
                 raise C.Infra("trace validation failed on known-finding case %s:\n%s" % (k, kr.out[-2000:]))
+    n_known = len(violations)
     chunks = split_at_calls(trace, wd, max_events=max_events)
     with ThreadPoolExecutor(max_workers=8) as ex:
         results = list(ex.map(lambda pn: (pn, validate(trace_module, trace_spec, pn[0], trace_consts, wd)), chunks))
@@ -137,8 +138,8 @@ def run(prop, tier, *, mc_module, mc_cfg, driver, trace_module, trace_spec="TSpe
         rounds = 0
         unrep_here = 0
         while not cur.ok:
-            if len(violations) >= C.MAX_VIOLATIONS:
-                C.log("[%s] %d witnesses reported; further rejected traces are not enumerated" % (prop, len(violations)))
+            if len(violations) - n_known >= C.MAX_VIOLATIONS:      # listed findings do not use up the budget of witnesses
+                C.log("[%s] %d witnesses reported; further rejected traces are not enumerated" % (prop, len(violations) - n_known))
                 break
             if not cur.postcondition_false:
                 raise C.Infra("trace validation failed on %s:\n%s" % (cur_chunk, cur.out[-3000:]))
